@@ -122,22 +122,17 @@ func (d *epDialer) DialContext(ctx context.Context, network, addr string) (netpr
 	return c, nil
 }
 
-// a control-plane generation owning kernel flow entries on behalf of endpoints
+// a control-plane generation owning kernel flow entries on behalf of endpoints: the REAL controlPlaneCore with its real
+// udpConnStateTracker (no kernel map attached: the tracker's reference counts are what is observed); the wrapper only adds
+// the gate that parks a hand-over for the adoption / close race
 type epOwner struct {
-	mu       sync.Mutex
-	held     map[bpfTuplesKey]int
-	gate     chan struct{} // non-nil: a transfer parks here until released
-	parked   chan struct{}
-	spurious int
+	core   *controlPlaneCore
+	mu     sync.Mutex
+	gate   chan struct{} // non-nil: a transfer parks here until released
+	parked chan struct{}
 }
 
-func (o *epOwner) RetainUdpConnStateTuples(keys []bpfTuplesKey) {
-	o.mu.Lock()
-	for _, k := range keys {
-		o.held[k]++
-	}
-	o.mu.Unlock()
-}
+func (o *epOwner) RetainUdpConnStateTuples(keys []bpfTuplesKey) { o.core.RetainUdpConnStateTuples(keys) }
 func (o *epOwner) TransferRetainedUdpConnStateTuplesFrom(previous udpConnStateOwner, keys []bpfTuplesKey) {
 	o.mu.Lock()
 	gate, parked := o.gate, o.parked
@@ -146,27 +141,24 @@ func (o *epOwner) TransferRetainedUdpConnStateTuplesFrom(previous udpConnStateOw
 		close(parked)
 		<-gate
 	}
-	o.RetainUdpConnStateTuples(keys)
 	if p, ok := previous.(*epOwner); ok && p != nil {
-		p.drop(keys)
+		o.core.TransferRetainedUdpConnStateTuplesFrom(p.core, keys)
 	}
-}
-
-// as the real tracker: giving up an entry that is not held is ignored
-func (o *epOwner) drop(keys []bpfTuplesKey) {
-	o.mu.Lock()
-	for _, k := range keys {
-		if o.held[k] > 0 {
-			o.held[k]--
-		} else {
-			o.spurious++
-		}
-	}
-	o.mu.Unlock()
 }
 func (o *epOwner) ReleaseUdpConnStateTuples(keys []bpfTuplesKey) error {
-	o.drop(keys)
-	return nil
+	return o.core.ReleaseUdpConnStateTuples(keys)
+}
+
+// how often the generation's tracker holds the entry; an entry whose deletion is in flight counts as not held
+func (o *epOwner) heldCount(k bpfTuplesKey) (int, bool) {
+	t := o.core.getUdpConnStateTracker()
+	t.mu.Lock()
+	defer t.mu.Unlock()
+	e, ok := t.entries[k]
+	if !ok {
+		return 0, false
+	}
+	return e.refs, e.deleting
 }
 
 func epRunOne(b *epBehaviour, res *verifutil.Result) {
@@ -183,7 +175,7 @@ func epRunOne(b *epBehaviour, res *verifutil.Result) {
 		"k1": {Src: netip.MustParseAddrPort("192.0.2.10:5001"), Dst: dst},
 		"k2": {Src: netip.MustParseAddrPort("192.0.2.10:5002"), Dst: dst},
 	}
-	owners := map[string]*epOwner{"o1": {held: map[bpfTuplesKey]int{}}, "o2": {held: map[bpfTuplesKey]int{}}}
+	owners := map[string]*epOwner{"o1": {core: &controlPlaneCore{}}, "o2": {core: &controlPlaneCore{}}}
 	tupleDst := map[string]netip.AddrPort{"t1": netip.MustParseAddrPort("203.0.113.1:7000"), "t2": netip.MustParseAddrPort("203.0.113.2:7000")}
 	trackers := map[string]*controlPlaneDrainTracker{"o1": newControlPlaneDrainTracker(), "o2": newControlPlaneDrainTracker()}
 	opts := func(o string) *UdpEndpointOptions {
@@ -401,13 +393,16 @@ func epRunOne(b *epBehaviour, res *verifutil.Result) {
 		for on, o := range owners {
 			for tn, td := range tupleDst {
 				want := ev.Obs.Retain[on][tn]
-				o.mu.Lock()
 				// the endpoint registers the forward and the reverse tuple together; every source key has its own pair
 				got := 0
 				for _, k := range keys {
-					got += o.held[bpfTuplesKeyFromAddrPorts(k.Src, td, 17)]
+					n, deleting := o.heldCount(bpfTuplesKeyFromAddrPorts(k.Src, td, 17))
+					if deleting {
+						fail("|kernel", "generation %s: the deletion of kernel entry %s is still marked in flight at quiescence (a later flow with that tuple would wait for ever)", on, tn)
+						return
+					}
+					got += n
 				}
-				o.mu.Unlock()
 				res.Eval(1)
 				if got != want {
 					fail("|kernel", "owner %s holds kernel entry %s %d times, expected %d (exactly once per live endpoint that registered it, moved on adoption, released when the endpoint goes away)", on, tn, got, want)
